@@ -1,8 +1,105 @@
-(* C10: theorem statements are added when the corresponding Proofs file is merged. *)
+(* C10 Suspension only between operators, lasts RAM/20 s, returns work intact.
+   Statements only; every proof is [exact <lemma of Proofs/SuspendFacts.v>]. *)
 From Coq Require Import List ZArith QArith.
-From Eudoxia Require Import Num.Rnd64 Model.Types Model.Lifecycle Model.Container.
-(* 10 GB at 1 tick/s: the write-out rounds to zero ticks and lasts one (fix 2d917f8) *)
-Example C10_min_one_tick : forall S scr, suspend_ticks
-  {| cf_static := S; cf_script := scr; cf_tps := 1; cf_overcommit := false; cf_multi := true; cf_rnd := rnd64 |} 10 = 1%Z.
-Proof. intros. vm_compute. reflexivity. Qed.
-Print Assumptions C10_min_one_tick.
+Import ListNotations.
+From Eudoxia Require Import Num.Rnd64 Model.Types Model.Lifecycle Model.Container Model.Pool Model.Executor
+  Proofs.LedgerFacts Proofs.SuspendFacts.
+Close Scope Q_scope.
+Close Scope Z_scope.
+
+(* a batch of suspend commands passes the pool's check iff every command names a running container that
+   can be suspended right now *)
+Theorem C10_accept_iff : forall act ss,
+  verify_suspends act ss = Ok tt <-> Forall (suspendable act) ss.
+Proof. exact verify_suspends_iff. Qed.
+Print Assumptions C10_accept_iff.
+
+(* a request for a container that is not running (unknown, suspending, suspended, finished) or that is
+   not at an operator boundary is rejected: the pool tick is the error *)
+Theorem C10_rejected : forall C w next p ss asgs s,
+  In s ss ->
+  (forall c, find_container (su_cid s) (p_active p) = Some c -> c_can_suspend c = false) ->
+  pool_tick C w next p ss asgs = Err EBadSuspend.
+Proof. exact suspend_rejected. Qed.
+Print Assumptions C10_rejected.
+
+(* can_suspend holds only right after an operator finished while another remains: after every pool tick, a
+   running container with can_suspend has just completed operator c_opidx-1 and has not started the next *)
+Theorem C10_only_between_operators : forall C w next p ss asgs w' next' p' res,
+  (forall c, In c (p_active p) -> c_completed c = false /\ c_frozen c = false) ->
+  pool_tick C w next p ss asgs = Ok (w', next', p', res) ->
+  forall c', In c' (p_active p') ->
+    c_completed c' = false /\ c_frozen c' = false /\
+    (c_can_suspend c' = true ->
+     exists c, (In c (p_active p) \/ In c (new_containers next asgs)) /\
+               c_id c = c_id c' /\ c_ops c = c_ops c' /\
+               c_opidx c' = S (c_opidx c) /\ c_opidx c' < length (c_ops c') /\ c_rest c' = None).
+Proof. exact suspendable_only_between_operators. Qed.
+Print Assumptions C10_only_between_operators.
+
+(* duration: at least one tick; floor(ram/20 * tps) in exact arithmetic *)
+Theorem C10_at_least_one_tick : forall C ram, (1 <= suspend_ticks C ram)%Z.
+Proof. exact suspend_ticks_ge_1. Qed.
+Print Assumptions C10_at_least_one_tick.
+
+Theorem C10_duration_exact : forall C ram,
+  (forall x, (cf_rnd C x == x)%Q) -> (0 <= ram)%Q -> (0 < cf_tps C)%Z ->
+  suspend_ticks C ram = Z.max 1 (floorQ (ram / 20 * inject_Z (cf_tps C))%Q).
+Proof. exact suspend_ticks_exact. Qed.
+Print Assumptions C10_duration_exact.
+
+(* it lasts exactly D ticks, during which the container makes no progress ([same_but_susp]: every field
+   except the countdown is unchanged) and nothing in the world changes *)
+Theorem C10_lasts_D_ticks : forall C w c w1 c1,
+  csuspend C w c = Ok (w1, c1) ->
+  let D := suspend_ticks C (c_ram c) in
+  (forall k, (Z.of_nat k < D)%Z ->
+     exists ck, susp_iter C w1 c1 k = Ok (w1, ck) /\ is_suspended ck = false /\ same_but_susp c ck) /\
+  (forall k wk ck, Z.of_nat k = D -> susp_iter C w1 c1 k = Ok (wk, ck) ->
+     is_suspended ck = true /\ same_but_susp c ck).
+Proof. exact suspension_lasts. Qed.
+Print Assumptions C10_lasts_D_ticks.
+
+(* pool level: the accepted command's tick is the first of the D ticks *)
+Theorem C10_accepted_tick : forall C w next p ss asgs w' next' p' res s,
+  pool_tick C w next p ss asgs = Ok (w', next', p', res) -> In s ss ->
+  exists c, find_container (su_cid s) (p_active p) = Some c /\ c_can_suspend c = true /\
+    let D := suspend_ticks C (c_ram c) in
+    (D = 1%Z -> In (with_susp c 0) (p_suspended p')) /\
+    (D <> 1%Z -> In (with_susp c (D - 1)) (p_suspending p')) /\
+    (forall x, In x (p_active p') -> c_id x = su_cid s -> next <= c_id x).
+Proof. exact suspend_accepted_tick. Qed.
+Print Assumptions C10_accepted_tick.
+
+Theorem C10_countdown : forall C w next p ss asgs w' next' p' res c,
+  pool_tick C w next p ss asgs = Ok (w', next', p', res) -> In c (p_suspending p) ->
+  ((c_susp_left c = 1)%Z -> In (with_susp c 0) (p_suspended p')) /\
+  ((c_susp_left c <> 1)%Z -> In (with_susp c (c_susp_left c - 1)) (p_suspending p')).
+Proof. exact suspending_countdown. Qed.
+Print Assumptions C10_countdown.
+
+(* then its finished operators stay completed, its unfinished ones are pending and can be assigned again
+   (the release of exactly its allocation is C03_returned_in_the_tick_it_leaves) *)
+Theorem C10_returns_work_intact : forall C w c w1 c1 w2 c2,
+  NoDup (c_ops c) -> (forall o, In o (c_ops c) -> o < length (w_st w)) ->
+  (forall o, In o (firstn (c_opidx c) (c_ops c)) -> st_of w o = Completed) ->
+  (forall o, In o (skipn (c_opidx c) (c_ops c)) -> st_of w o = Assigned) ->
+  csuspend C w c = Ok (w1, c1) ->
+  susp_iter C w1 c1 (Z.to_nat (suspend_ticks C (c_ram c))) = Ok (w2, c2) ->
+  is_suspended c2 = true /\ same_but_susp c c2 /\
+  (forall o, In o (skipn (c_opidx c) (c_ops c)) -> st_of w2 o = Pending) /\
+  (forall o, In o (firstn (c_opidx c) (c_ops c)) -> st_of w2 o = Completed) /\
+  (forall o, ~ In o (skipn (c_opidx c) (c_ops c)) -> st_of w2 o = st_of w o) /\
+  (forall cpu ram pr pl, c_opidx c < length (c_ops c) -> (0 < cpu)%Z -> (0 < ram)%Q ->
+     exists w3, mk_assignment C w2 {| a_ops := skipn (c_opidx c) (c_ops c); a_cpu := cpu;
+                                      a_ram := ram; a_prio := pr; a_pool := pl |} = Ok w3).
+Proof. exact suspend_release_states. Qed.
+Print Assumptions C10_returns_work_intact.
+
+(* the float-faithful count: 10 GB at 1 tick/s rounds to zero ticks and lasts one (fix 2d917f8);
+   40 GB at 1 tick/s lasts 2; 64 GB at 10 ticks/s lasts 32 *)
+Example C10_durations : forall S scr,
+  let C tps := {| cf_static := S; cf_script := scr; cf_tps := tps; cf_overcommit := false;
+                  cf_multi := true; cf_rnd := rnd64 |} in
+  suspend_ticks (C 1%Z) 10 = 1%Z /\ suspend_ticks (C 1%Z) 40 = 2%Z /\ suspend_ticks (C 10%Z) 64 = 32%Z.
+Proof. intros. repeat split; vm_compute; reflexivity. Qed.
